@@ -677,6 +677,49 @@ def enc_roundtrip(case):
     return []
 
 
+def fault_recovers(case):
+    """C08: the faulted request is answered (error, not a hang or crash); the log invariant holds after
+    the fault and after the retries; after all clients retried, every client holds the state of the
+    fault-free run of the same scenario."""
+    hdr = case[0][0]
+    if "fault" not in hdr:
+        return []
+    for idx, (ln, mo) in enumerate(case):
+        io = ln.get("obs", {})
+        if io.get("hang") or io.get("crash") or io.get("panic"):
+            return [dict(step=idx, what="fault-not-answered", detail=dict(cmd=strip(ln), fault=hdr["fault"], msg=io.get("panicMsg", "")[-300:]))]
+        for p in io.get("posts", []) or []:
+            if p.get("panic"):
+                return [dict(step=idx, what="client-panicked-on-fault-response", detail=dict(cmd=strip(ln), fault=hdr["fault"]))]
+    for idx, ln, st in _stores(case):
+        # operation documents beyond the recorded end of the log are uncommitted leftovers of the failed
+        # push: never handed out, removed by the next push (the datatype document is the commit point)
+        ends = {d["duid"]: d["end"] for d in st["datatypes"]}
+        view = dict(st, operations=[o for o in st["operations"] if o["duid"] in ends and o["sseq"] <= ends[o["duid"]]])
+        m = check_loginv(view)
+        if m:
+            return [dict(step=idx, what="log-invariant-after-fault", detail=dict(fault=hdr["fault"], msg=m, cmd=strip(ln)))]
+    end = case[-1][0]
+    if end.get("k") == "send" and "final" in end:
+        fin, ref = end["final"], hdr.get("ref") or []
+        # all clients agree with each other …
+        for v in fin[1:]:
+            if first_diff(v, fin[0]):
+                return [dict(step=len(case) - 1, what="retries-do-not-recover:clients-differ", detail=dict(fault=hdr["fault"], final=fin))]
+        # … and with the fault-free run of the same scenario as far as the outcome does not depend on the
+        # clocks (which the fault legitimately shifts): counter value, multiset of list elements, key set
+        if ref and fin:
+            a, b = fin[0], ref[0]
+            bad = False
+            if isinstance(a, dict) and "Counter" in a:
+                bad = a != b
+            elif isinstance(a, dict) and "List" in a:
+                bad = sorted(map(canon, a["List"])) != sorted(map(canon, (b or {}).get("List", [])))
+            if bad:
+                return [dict(step=len(case) - 1, what="retries-do-not-recover", detail=dict(fault=hdr["fault"], final=fin, reference=ref))]
+    return sconverge(case)
+
+
 def hash_unique(case):
     """C15: no two timestamps of the exhaustive grid share an identifier key."""
     for idx, (ln, mo) in enumerate(case):
@@ -685,6 +728,6 @@ def hash_unique(case):
     return []
 
 
-ORACLES = dict(hash_unique=hash_unique, enc_roundtrip=enc_roundtrip, patch_target=patch_target, loginv=loginv, sconverge=sconverge, refused_noop=refused_noop,
+ORACLES = dict(hash_unique=hash_unique, fault_recovers=fault_recovers, enc_roundtrip=enc_roundtrip, patch_target=patch_target, loginv=loginv, sconverge=sconverge, refused_noop=refused_noop,
                isolation=isolation, notify=notify, contract=contract, corr=corr, spec=spec, converge=converge, err_noop=err_noop, no_panic=no_panic,
                seq_gapless=seq_gapless, list_order=list_order, twin=twin, tx_atomic=tx_atomic)
